@@ -125,6 +125,12 @@ type FnGen struct {
 	closures map[*ssa.MakeClosure][]capturedVar
 	boundCallees map[string]bool
 	selectN      int
+	callOrd      map[ssa.Instruction]callOrdinal
+}
+
+type callOrdinal struct {
+	key string
+	k   int
 }
 
 type coverPoint struct {
@@ -709,6 +715,7 @@ func (g *FnGen) run() {
 		panic(genErr("%s has no body", fn.Name()))
 	}
 	g.findLoops()
+	g.numberCalls()
 	st := &State{pc: "true", locals: map[*ssa.Alloc]string{}, heaps: map[string]string{}, ghosts: map[string]string{}, names: map[string]*ssa.Alloc{}, iters: map[*ssa.Range]string{}}
 	g.declare("next!0", "Int")
 	st.next = "next!0"
@@ -863,7 +870,7 @@ func (g *FnGen) loopHead(s *State, li *loopInfo) {
 		if li.lc.HasMod {
 			bound = pre.next
 		}
-		tinv = append(tinv, g.frameAxiom(fenv, mods, k, old, n, bound))
+		tinv = append(tinv, g.frameAxiom(fenv, mods, k, old, n, bound, g.stableLocals(li)...))
 	}
 	for name := range ghostsMod {
 		gd := g.c.ghosts[name]
@@ -916,6 +923,15 @@ func (g *FnGen) scanEffects(ins ssa.Instruction, assigned map[*ssa.Alloc]bool, h
 		if x.Op == token.ARROW && g.hasChanProtocol() {
 			ghosts["ChanPending"], ghosts["InFlight"] = true, true
 		}
+		if x.Op == token.ARROW && g.fc != nil {
+			if co, ok := g.callOrd[ins]; ok {
+				for _, h := range g.fc.CallHooks {
+					if h.Callee == co.key && h.K == co.k && h.Ghost != "" {
+						ghosts[h.Ghost] = true
+					}
+				}
+			}
+		}
 	case *ssa.Select:
 		if g.hasChanProtocol() {
 			ghosts["ChanPending"], ghosts["InFlight"] = true, true
@@ -935,6 +951,15 @@ func (g *FnGen) scanEffects(ins ssa.Instruction, assigned map[*ssa.Alloc]bool, h
 		vs, ds := g.mapSorts(mt)
 		heapSorts[vs], heapSorts[ds] = true, true
 	case ssa.CallInstruction:
+		if g.fc != nil {
+			if co, ok := g.callOrd[ins]; ok {
+				for _, h := range g.fc.CallHooks {
+					if h.Callee == co.key && h.K == co.k && h.Ghost != "" {
+						ghosts[h.Ghost] = true
+					}
+				}
+			}
+		}
 		com := x.Common()
 		if b, ok := com.Value.(*ssa.Builtin); ok {
 			if b.Name() == "append" || b.Name() == "copy" {
@@ -1184,6 +1209,7 @@ func (g *FnGen) exec(s *State, ins ssa.Instruction) {
 		g.execTypeAssert(s, x)
 	case *ssa.Call:
 		g.execCall(s, x, x.Common(), x)
+		g.runHooks(s, x, "", nil)
 	case *ssa.Defer:
 		g.execDefer(s, x)
 	case *ssa.RunDefers:
@@ -1403,10 +1429,8 @@ func (g *FnGen) execTypeAssert(s *State, x *ssa.TypeAssert) {
 	v := g.term(s, x.X)
 	var ok, res string
 	if _, isIface := x.AssertedType.Underlying().(*types.Interface); isIface {
-		okc := g.fresh("implok", "Bool")
-		// asserting to an interface: succeeds iff dynamic type implements it (abstract), never for nil
-		g.assume(s, implies(okc, not(eq(app("i-tid", v), "0"))))
-		ok, res = okc, v
+		// asserting to an interface: succeeds iff the value is non-nil and its dynamic type implements it (abstract predicate)
+		ok, res = and(not(eq(app("i-tid", v), "0")), app(g.c.implFun(x.AssertedType), app("i-tid", v))), v
 	} else {
 		ok = eq(app("i-tid", v), intLit(int64(g.c.typeID(x.AssertedType))))
 		if g.c.reg.sortOf(x.AssertedType) == "Ref" {
@@ -1446,4 +1470,123 @@ func (g *FnGen) execPhi(s *State, x *ssa.Phi) {
 		t = g.c.reg.zero(x.Type())
 	}
 	g.vals[x] = &Val{term: t}
+}
+
+// numberCalls gives every call (and unary receive) its ordinal, in source order, among the calls of the same callee.
+func (g *FnGen) numberCalls() {
+	type item struct {
+		ins ssa.Instruction
+		key string
+	}
+	var items []item
+	for _, b := range g.fn.Blocks {
+		for _, ins := range b.Instrs {
+			switch x := ins.(type) {
+			case ssa.CallInstruction:
+				com := x.Common()
+				if _, ok := com.Value.(*ssa.Builtin); ok {
+					continue
+				}
+				if _, ok := com.Value.(*ssa.MakeClosure); ok && !com.IsInvoke() {
+					continue
+				}
+				_, ct := g.c.calleeContract(g, com)
+				items = append(items, item{ins, shortKey(ct.key)})
+			case *ssa.UnOp:
+				if x.Op == token.ARROW {
+					items = append(items, item{ins, "<-"})
+				}
+			}
+		}
+	}
+	sort.SliceStable(items, func(i, j int) bool { return items[i].ins.Pos() < items[j].ins.Pos() })
+	g.callOrd = map[ssa.Instruction]callOrdinal{}
+	cnt := map[string]int{}
+	for _, it := range items {
+		cnt[it.key]++
+		g.callOrd[it.ins] = callOrdinal{it.key, cnt[it.key]}
+	}
+	if g.fc != nil {
+		for _, h := range g.fc.CallHooks {
+			if cnt[h.Callee] < h.K || h.K < 1 {
+				panic(genErr("%s: hook names call %d of %s but the function has %d", h.Where, h.K, h.Callee, cnt[h.Callee]))
+			}
+		}
+	}
+}
+
+// runHooks applies the contract's hooks attached to instruction ins (after it executed).
+func (g *FnGen) runHooks(s *State, ins ssa.Instruction, recv string, recvT types.Type) {
+	if g.fc == nil || s.dead {
+		return
+	}
+	co, ok := g.callOrd[ins]
+	if !ok {
+		return
+	}
+	for _, h := range g.fc.CallHooks {
+		if h.Callee != co.key || h.K != co.k {
+			continue
+		}
+		env := g.newEnv(s, g.entry)
+		if recv != "" {
+			env.vars["recv"] = TVal{term: recv, ty: Ty{sort: g.c.reg.sortOf(recvT), gt: recvT}}
+		}
+		if h.Ghost == "" {
+			for j, c := range env.conjuncts(h.E) {
+				g.addObl(s, "assert", fmt.Sprintf("assert@%s#%d[%d]", co.key, co.k, j+1), h.Src, h.Where, c)
+				g.assume(s, c)
+			}
+			continue
+		}
+		gd, ok := g.c.ghosts[h.Ghost]
+		if !ok {
+			panic(genErr("%s: unknown ghost %s", h.Where, h.Ghost))
+		}
+		v := env.eval(h.E)
+		s.ghosts[h.Ghost] = g.bind("G_"+h.Ghost, g.c.specSort(gd.Sort, nil).sort, v.term)
+	}
+}
+
+// stableLocals: references of the address-taken locals (Alloc with Heap set) that exist when the loop is
+// entered and that the loop neither stores to directly nor passes (by address) to a call.
+func (g *FnGen) stableLocals(li *loopInfo) []string {
+	touched := map[*ssa.Alloc]bool{}
+	for b := range li.blocks {
+		for _, ins := range b.Instrs {
+			switch x := ins.(type) {
+			case *ssa.Store:
+				if a := rootAlloc(x.Addr); a != nil {
+					touched[a] = true
+				}
+			case ssa.CallInstruction:
+				for _, arg := range x.Common().Args {
+					if a := rootAlloc(arg); a != nil {
+						touched[a] = true
+					}
+				}
+				if !x.Common().IsInvoke() {
+					if a := rootAlloc(x.Common().Value); a != nil {
+						touched[a] = true
+					}
+				}
+			case *ssa.Alloc:
+				touched[x] = true // allocated inside the loop
+			}
+		}
+	}
+	var out []string
+	var as []*ssa.Alloc
+	for v := range g.vals {
+		if a, ok := v.(*ssa.Alloc); ok && a.Heap && !touched[a] {
+			as = append(as, a)
+		}
+	}
+	sort.Slice(as, func(i, j int) bool { return as[i].Pos() < as[j].Pos() || (as[i].Pos() == as[j].Pos() && as[i].Name() < as[j].Name()) })
+	for _, a := range as {
+		if v := g.vals[a]; v != nil && v.term != "" {
+			out = append(out, v.term)
+		}
+	}
+	return out
 }
